@@ -425,7 +425,10 @@ def run(ctx):
         partial=["LearnerND / IntegratorLearner: the roll-back half is proved on the models LND.lean / Integ.lean (state returned as given, also when "
                  "the request fails; same points and error class as the committing ask); the committing half (ask(n, True) = marking each "
                  "returned point pending) is not proved for them: twin oracle only",
-                 "Learner2D has no Lean model: twin oracle only"],
+                 "Learner2D: only the bookkeeping is modelled (L2D.lean, geometry of _fill_stack as oracle): data, pending and the answer of a "
+                 "non-committing ask are proved unchanged / equal to the committing answer for every oracle, a failed request is a proved no-op; "
+                 "'every later answer is what it would have been' is FALSE for Learner2D (the suggestion stack is rewritten: recorded finding, "
+                 "characterised exactly by l2d_ask_nocommit_stack_char) - that clause is decided by the twin oracle with the mechanism neutralised"],
     )
 
 
